@@ -5,7 +5,7 @@
 (* registers) in violation keys and messages.  The verdict itself is the     *)
 (* invariant of X64_Eval.                                                    *)
 EXTENDS X64_Eval
-Members(S) == Mk([n \in 1..32 |-> (n - 1) \in S])
+Members(fams) == Mk([n \in 1..32 |-> (n - 1) \in fams])
 Explain(r) ==
     IF r.t = "enc" THEN EncVerdict(r)
     ELSE LET v == RwVerdict(r) IN
